@@ -1,12 +1,16 @@
 #!/usr/bin/env python3
-"""File the confirmed round-4 seeded changes (results of tools/par_mutants.py in out/r4_results.json) under
+"""usage: file_round.py <round, e.g. r5> <results.json>...   File the confirmed seeded changes of a round (results of tools/par_mutants.py) under
    /verif/seeded/<name>/ (patch.diff, demo/, meta.json), record the detection results in tools/detection.json and
    rebuild seeded/TABLE.md (all rounds)."""
 import json, os, glob, shutil, re
-R = json.load(open("/verif/out/r4_results.json"))
-C2 = json.load(open("/verif/out/r4_confirm2.json")) if os.path.exists("/verif/out/r4_confirm2.json") else {}
+import sys
+ROUND = sys.argv[1]
+R = {}
+for _f in sys.argv[2:]:
+    R.update(json.load(open(_f)))
+C2 = json.load(open(f"/verif/out/{ROUND}_confirm2.json")) if os.path.exists(f"/verif/out/{ROUND}_confirm2.json") else {}
 DET = json.load(open("/verif/tools/detection.json"))
-NOTES = json.load(open("/verif/tools/r4_notes.json"))
+NOTES = json.load(open(f"/verif/tools/{ROUND}_notes.json"))
 for name in sorted(R):
     r = R[name]
     conf = r.get("confirmed") or C2.get(name, {}).get("confirmed")
